@@ -720,4 +720,4 @@ def run(rep, program: Program, tier: str) -> None:
     # expression over that operand disagree with dense linear algebra (shared with C19-R1)
     from . import c19
 
-    rep.isolate(c19.rule_r1, rep, program, prop=PROP, rule="R10")
+    rep.isolate(c19.rule_r1, rep, program, prop=PROP, rule="R10", only_inplace=True)
